@@ -33,6 +33,7 @@ type c17World struct {
 	mu       sync.Mutex
 	log      map[int][]string // per thread: what resource code / filters / the wire saw
 	shared   *common.ErrorResponse
+	shared2  *common.ErrorResponse // a second error object shared by all requests: no status, no message
 	sharedEn reflect.Value
 	free     bool // free-running (race pass): no scheduler
 	// resources below an existing root that are registered on the server only after the handler was obtained
@@ -112,6 +113,7 @@ func newC17World(u *schema.Universe, free bool) *c17World {
 	w := &c17World{u: u, clients: map[string]reflect.Value{}, log: map[int][]string{}, free: free}
 	st := int32(409)
 	w.shared = &common.ErrorResponse{Status: &st} // no message: exercises the defaulting path on a shared object
+	w.shared2 = &common.ErrorResponse{}
 	srv := restli.NewServer(&c17Filter{w})
 	for _, r := range u.Resources {
 		b := Bindings[r.Namespace]
@@ -217,6 +219,10 @@ func (w *c17World) respond(r *schema.Resource, mockName string, ft reflect.Type,
 	tag := ""
 	if len(args) > 0 {
 		tag = fmt.Sprint(derefAll(args[0]))
+	}
+	if strings.Contains(tag, "bare-err") {
+		outs[len(outs)-1] = errValue(w.shared2)
+		return outs
 	}
 	if strings.Contains(tag, "err") {
 		outs[len(outs)-1] = errValue(w.shared)
@@ -337,6 +343,7 @@ func c17Requests(u *schema.Universe) []c17Req {
 		{"get(k1)", func(w *c17World, t int) string { return call(w, t, cs, "Get", "k1") }},
 		{"get(k2)", func(w *c17World, t int) string { return call(w, t, cs, "Get", "k2") }},
 		{"get(err)", func(w *c17World, t int) string { return call(w, t, cs, "Get", "err-a") }},
+		{"get(bare-err)", func(w *c17World, t int) string { return call(w, t, cs, "Get", "bare-err-c") }},
 		{"delete(err)", func(w *c17World, t int) string { return call(w, t, cs, "Delete", "err-b") }},
 		{"delete(status)", func(w *c17World, t int) string { return call(w, t, cs, "Delete", "status-x") }},
 		{"create(e1)", func(w *c17World, t int) string { return call(w, t, cs, "Create", entity("e1")) }},
@@ -455,6 +462,9 @@ func c17Harness(u *schema.Universe, combo []c17Req, iso map[string]string, resul
 			// the shared error object must be untouched
 			if w.shared.Message != nil {
 				return fmt.Errorf("the ErrorResponse shared by the resource between requests was modified: message %q", *w.shared.Message)
+			}
+			if w.shared2.Status != nil || w.shared2.Message != nil {
+				return fmt.Errorf("the status-less ErrorResponse shared by the resource between requests was modified: %+v", describeErr(w.shared2))
 			}
 			return nil
 		},
